@@ -190,6 +190,140 @@ def _sum_check(F, b):
     return (ok_guard and ok_build and ok_idx), "sum check dominates the loop and fails into Err: %s; contents = header ++ stream ++ adler32: %s (%s); index advances by chunk_size: %s" % (ok_guard, ok_build, ext, idx)
 
 
+READER_FILES = ("src/huffman_encoding.rs", "src/deflate_reader.rs", "src/bit_reader.rs", "src/huffman_helper.rs")
+
+
+def _site_status(F, U, b):
+    """[(site, key-without-ordinal, unproved-list)] for one body: LIN first, upper-bound inference for fixed-size arrays second."""
+    from ..facts import op_const, const_int
+    L, sites, facts, inn, out = lin.sites_and_facts(F, b)
+    res = []
+    for s in sites:
+        here = [f for f in facts if lin.holds_at(b, f[0], s.bb)]
+        unproved = []
+        for what, ob in s.obligations:
+            if ob is TOP:
+                unproved.append("%s (cannot normalise)" % what)
+            elif lin.entailed(ob, here) is None:
+                unproved.append("%s, i.e. %s >= 0" % (what, aff_str(ob)))
+        if unproved and s.kind == "index":
+            t = b.term(s.bb)
+            if t["k"] == "assert" and t.get("msg") == "BoundsCheck":
+                ln = const_int(op_const(t["ops"][0])) if op_const(t["ops"][0]) else None
+                try:
+                    ubv = U.operand(b, t["ops"][1], at=s.bb)
+                except Exception:
+                    ubv = None
+                if ln is not None and ubv is not None and ubv < ln:
+                    unproved = []
+        if unproved and s.kind == "sub":
+            # (K1 << x) - K2 with K2 <= K1: a left shift that does not overflow (the compiler checks that separately) never
+            # makes the value smaller than K1
+            m = re.match(r"^Shl\(K(\d+), .*\)(\.0)? - K(\d+)$", s.what)
+            if m and int(m.group(3)) <= int(m.group(1)):
+                unproved = []
+        if unproved and s.kind == "sub":
+            # K - x with an upper bound of x that does not exceed K (e.g. 8 - (bits & 7))
+            try:
+                ops = _sub_operands(b, s)
+                if ops is not None:
+                    k = flow.const_eval(b, ops[0])
+                    if k is not None and U.operand(b, ops[1], at=s.bb) <= k:
+                        unproved = []
+            except Exception:
+                pass
+        res.append((s, unproved))
+    return res
+
+
+def _sub_operands(b, s):
+    """(minuend, subtrahend) operands of the checked subtraction this site stands for, or None."""
+    for st in b.stmts(s.bb):
+        r = st.get("r") or {}
+        if st.get("k") == "assign" and r.get("k") == "binop" and r["op"].replace("WithOverflow", "").replace("Unchecked", "") == "Sub":
+            if "%s - %s" % (flow.describe(b, r["l"], names=True), flow.describe(b, r["r"], names=True)) == s.what:
+                return r["l"], r["r"]
+    return None
+
+
+def _analysis_defs(F):
+    roots = F.roots_for([P + "preflate_container::decompress_deflate_stream"])
+    par = F.reach(roots)
+    return sorted({F.inst(i)["def"] for i in par if F.inst(i)["local"] and F.inst(i)["def"] in F.bodies})
+
+
+def open_sites(F, exclude_files=()):
+    from ..ub import UB
+    U = UB(F)
+    out = []
+    for dn in _analysis_defs(F):
+        b = F.bodies[dn]
+        if b.file in exclude_files:
+            continue
+        try:
+            for s, unproved in _site_status(F, U, b):
+                if unproved:
+                    out.append((dn.replace(P, ""), s.kind, s.what))
+        except Exception:
+            continue
+    return out
+
+
+def x5(ctx, rep, rule="X5"):
+    """C05, rest of the analysis path (estimators, predictors, hash chains, Huffman calculators): arbitrary input reaches all of
+    it.  Every index / slice / unsigned subtraction there is implied by guards of its function, bounded by upper-bound inference,
+    or one of the sites that already existed on the reference tree (reference/analysis_bounds.json — their safety rests on
+    value-level invariants this family does not decide).  A *new* site of that kind is a new way to panic and is reported."""
+    import json, os
+    from ..ub import UB
+    F = ctx.lib
+    U = UB(F)
+    p = os.path.join(os.path.dirname(os.path.dirname(os.path.dirname(os.path.abspath(__file__)))), "reference", "analysis_bounds.json")
+    if not os.path.exists(p):
+        rep.missing(rule, "reference/analysis_bounds.json")
+        return
+    rows = [tuple(r) for r in json.load(open(p))]
+    known = set(rows)
+    from collections import Counter
+    ref_tot = Counter(k for _, k, _ in rows)
+    cur_tot = Counter()
+    fresh = []
+    n = n_known = 0
+    for dn in _analysis_defs(F):
+        b = F.bodies[dn]
+        if b.file in READER_FILES:
+            continue
+        short = dn.replace(P, "")
+        try:
+            st = _site_status(F, U, b)
+        except Exception as e:
+            rep.add(rule, "UNRECOGNISED-IDIOM:" + short, False, "%s:%s" % (b.file, b.line), "LIN evaluation failed: %s: %s" % (type(e).__name__, e))
+            continue
+        counts = {}
+        for s, unproved in st:
+            n += 1
+            if not unproved:
+                continue
+            k = "%s:%s" % (s.kind, s.what)
+            counts[k] = counts.get(k, 0) + 1
+            key = "%s|%s%s" % (short, k, "" if counts[k] == 1 else "#%d" % counts[k])
+            cur_tot[s.kind] += 1
+            if (short, s.kind, s.what) in known:
+                n_known += 1
+            else:
+                fresh.append((s.kind, key, s.where, "; ".join(unproved)))
+    # Verdict on the totals per kind, so that rewriting an expression or moving code between functions (which changes the
+    # description of a pre-existing site, not their number) stays silent; the sites that are new by description are named.
+    for kind in sorted(set(ref_tot) | set(cur_tot)):
+        over = cur_tot[kind] - ref_tot[kind]
+        new_here = [f for f in fresh if f[0] == kind]
+        rep.add(rule, "undischarged-%s-sites-do-not-grow" % kind, over <= 0, new_here[0][2] if (over > 0 and new_here) else "",
+                "%d undischarged %s sites (reference tree: %d)%s" % (cur_tot[kind], kind, ref_tot[kind],
+                "" if over <= 0 else "; not on the reference tree: " + " | ".join("%s [%s]" % (f[1], f[3]) for f in new_here[:4])))
+    rep.stats["x5"] = {"sites": n, "known": n_known, "new_by_description": len(fresh)}
+    rep.floor(rule, "analysis-access-sites", n, 100)
+
+
 def x4(ctx, rep, rule="X4"):
     """C05: the DEFLATE reader digests arbitrary bytes; every index, slice and unsigned subtraction in its modules is either
     implied by guards of the same function (LIN) or a reviewed row naming the invariant that protects it."""
